@@ -29,6 +29,19 @@ def D(name, src, needs=(), weak=(), fwd=None):
 
 # (id, language, declarations, extra flags)
 GRAPHS = [
+    # anonymous (declarator-less) members: the inner type is reached through an InnerType edge AND a Field edge to the same item
+    ("c-anonymous-holds-float", "c", [
+        D("L", "struct L { float w; int i; };", fwd="struct L;"),
+        D("W", "struct W { struct { struct L m; int k; }; int tag; };", needs=["L"], fwd="struct W;"),
+        D("V", "struct V { union { struct W w; int z; }; char c; };", needs=["W"], fwd="struct V;"),
+        D("U", "struct U { struct V *v; struct L *l; struct { struct V vv; }; };", needs=["V"], weak=["L"]),
+    ], []),
+    ("cpp-anonymous-template", "cpp", [
+        D("Later", "template<class T> struct Later { T item; float weight; };", fwd="template<class T> struct Later;"),
+        D("W", "template<class T> struct W { struct { Later<T> m; int k; }; int tag; };", weak=["Later"], fwd="template<class T> struct W;"),
+        D("X", "template<class T> struct X { union { W<T> *w; int z; }; struct { Later<T> *p; }; };", weak=["W", "Later"]),
+        D("Use", "struct Use { W<int> w; X<char> x; };", needs=["W", "Later", "X"]),
+    ], []),
     ("c-float-chain", "c", [
         D("A", "struct A { float f; int i; };", fwd="struct A;"),
         D("B", "struct B { struct A a; int k; };", needs=["A"], fwd="struct B;"),
